@@ -266,6 +266,12 @@ def battery(repo: Repo, ctx, rule: str, prefixes: Iterable[str],
                      for f, c, cal, P in hits[:3]) + f' -- {consequence}',
            hits[0][0].loc if hits else '', sample=f'{n} pass-through sites',
            nontrivial=bool(n))
+    n, hits = discarded_updates(repo, prefixes)
+    ctx.ob(rule, 'slips:discarded-update', not hits,
+           '; '.join(f'{f.qualname}: `{norm(s_)[:60]}` returns the updated '
+                     f'value, which is dropped' for f, s_ in hits[:3]) +
+           f' -- {consequence}', hits[0][0].loc if hits else '',
+           sample=f'{n} call statements', nontrivial=bool(n))
     n, hits = loop_slips(repo, prefixes)
     ctx.ob(rule, 'slips:loops', not hits,
            '; '.join(f'{f.qualname}:{l.lineno - f.node.lineno}: {why}'
@@ -381,4 +387,36 @@ def dropped_forwarding(repo: Repo, prefixes: Iterable[str]):
                     if not (any(k.arg == P for k in c.keywords)
                             or len(c.args) > idx):
                         hits.append((f, c, cal, P))
+    return n, hits
+
+
+# ---------------------------------------------------------------------------
+# persistent updates whose result is dropped
+
+def discarded_updates(repo: Repo, prefixes: Iterable[str]):
+    """`schema.add(...)`, `obj.set_field_value(schema, ...)`,
+    `state._replace(...)` and the like return the updated value; calling
+    them as a bare statement loses the update."""
+    import collections
+    ret = collections.defaultdict(set)
+    for q, f in repo.functions.items():
+        if f.node.returns is None or not q.startswith('edb.'):
+            continue
+        r = norm(f.node.returns)
+        ret[f.name].add('Schema' in r and not any(
+            w in r for w in ('Tuple', 'tuple', 'Optional', 'Iterator')))
+    schema_methods = {n for n, v in ret.items() if v == {True}}
+    n = 0
+    hits = []
+    for m in repo.modules.values():
+        if not m.name.startswith(tuple(prefixes)):
+            continue
+        for f in repo._funcs_of(m):
+            for s in ast.walk(f.node):
+                if isinstance(s, ast.Expr) and isinstance(s.value, ast.Call):
+                    from .model import call_name
+                    nm = (call_name(s.value) or '').split('.')[-1]
+                    n += 1
+                    if nm in schema_methods or nm == '_replace':
+                        hits.append((f, s))
     return n, hits
